@@ -308,7 +308,8 @@ class T5:
                     trig = [("rel", "Le", norm(body.origin(t["msg"]["len"]), g), norm(body.origin(t["msg"]["index"]), g))]
                     kind = "BoundsCheck"
                 elif mk in ("DivisionByZero", "RemainderByZero"):
-                    trig = [("rel", "Eq", norm(body.origin(t["msg"]["a"]), g), ("int", 0))]
+                    # the message operand is the dividend; the condition tested is `divisor == 0`
+                    trig = [atom_norm(a, g) for a in atoms_of(body.origin(t["cond"]), ("eq", 0 if t["expected"] else 1))]
                     kind = mk
                 elif mk == "OverflowNeg":
                     trig = [("opaque", "OverflowNeg", (norm(body.origin(t["msg"]["a"]), g),))]
@@ -385,6 +386,9 @@ class T5:
             if h[0] != "rel":
                 continue
             op, a, b = h[1], h[2], h[3]
+            # an upper bound on leaf / c (c a positive constant) bounds leaf
+            if a[0] == "binop" and a[1] == "Div" and a[2] == leaf and a[3][0] == "int" and a[3][1] > 0:
+                a = leaf
             if op in ("Lt", "Le") and a == leaf and not contains(b, lambda s: s == leaf):
                 return h
             if op == "Eq" and (a == leaf or b == leaf):
